@@ -19,7 +19,7 @@ RULE = ('Noll indices 1..231 (quick) / 1..1326 (thorough) enumerated completely 
 ASSUMPTIONS = ['the sign of sine modes is not pinned by the property: +sin and -sin are both accepted (per mode)']
 PLAN = {'quick': {'gen': 8}, 'thorough': {'gen': 16, 'tests': 1, 'docs': 1}}
 REQUIRED_BUCKETS = ['index', 'value:normalized', 'value:unnormalized', 'gram:diag', 'gram:offdiag', 'coords:even', 'coords:odd',
-                    'coords:offcentre', 'support-only', 'coords:shared', 'basis', 'compose:normalized', 'compose:unnormalized', 'theta:undefined-for-m=0', 'coords:narrow-float', 'value:high-order', 'coords:rho>1', 'coords:result-edited']
+                    'coords:offcentre', 'support-only', 'coords:shared', 'basis', 'compose:normalized', 'compose:unnormalized', 'theta:undefined-for-m=0', 'coords:narrow-float', 'value:high-order', 'coords:rho>1', 'coords:result-edited', 'zero-outside:overflow']
 REQUIRED_ANCHORS = ['probe:zernike_index', 'anchor:R', 'anchor:zernike', 'anchor:zernike_coordinates']
 REQUIRED_ORACLES = ['index=noll', 'index:bijective', 'mode=textbook', 'R(1)=1', 'gram=I', '|Z|<=1', 'rho=centroid-distance',
                     'origin=centroid', 'zero-outside', 'support-only']
@@ -264,6 +264,24 @@ def workload(ctx, lentil):
         tol = 1e-10
         ctx.close('gram=I', np.array([g]), np.array([1.0 if a == b else 0.0]), tol, 'gram|diag' if a == b else 'gram|offdiag',
                   'normalised modes are not orthonormal over the unit disk', dict(desc, value=g), scale=1.0)
+
+    # ---- a small aperture in a large array at a very high order: far outside the mask rho**n leaves the floating-point range, and
+    # the mode is still exactly zero there (not inf * 0) ------------------------------------------------------------------------
+    for i in range(2 if ctx.shard % 3 == 0 else 0):
+        N_ = int(rng.choice([400, 512]))
+        mk = np.zeros((N_, N_))
+        r0_, c0_ = int(rng.integers(40, N_ - 40)), int(rng.integers(40, N_ - 40))
+        mk[r0_:r0_ + int(rng.integers(2, 5)), c0_:c0_ + int(rng.integers(2, 5))] = 1
+        j = int(rng.integers(6000, 12000))
+        ctx.case({'small-mask-large-array': N_, 'mode': j}, ['zero-outside:overflow'])
+        try:
+            with np.errstate(all='ignore'):
+                z = np.asarray(lentil.zernike(mk, j), float)
+            ctx.check(bool(np.all(z[mk == 0] == 0)) and bool(np.all(np.isfinite(z[mk != 0]))), 'zero-outside', 'coords|zero-outside|overflow',
+                      'a high-order mode of a small mask in a large array is not exactly zero (NaN / inf) outside the mask',
+                      {'mode': j, 'array': N_, 'nan_outside': int(np.isnan(z[mk == 0]).sum())})
+        except Exception as e:
+            ctx.check(False, 'zero-outside', f'coords|zero-outside|overflow|raises={type(e).__name__}', str(e), {'mode': j})
 
     # ---- (v) default coordinates -------------------------------------------------------------------
     nc = ctx.count(110, 700)
